@@ -28,7 +28,7 @@
 (*   FedRefinesMonolith : every terminating behaviour yields Exec(monolith)   *)
 (*   deadlock freedom   : a demanded slot is never unreachable (= the layout  *)
 (*                        can be planned; pins which layouts are legitimate)  *)
-EXTENDS FedCatalog
+EXTENDS FedCatalog, Json, IOUtils
 
 VARIABLES kcfg, kv, kat, kdem       \* kdem = slots the current partial response still demands
 fvars == <<kcfg, kv, kat, kdem>>
@@ -36,7 +36,7 @@ fvars == <<kcfg, kv, kat, kdem>>
 Ent == Catalog[kcfg.e]
 Sgs == Ent.sgs
 TheU == IF kcfg.u = 0 THEN Ent.broken ELSE Ent.universes[kcfg.u]
-TheOp == Ent.ops[kcfg.i]
+TheOp == [doc |-> kcfg.doc, vars |-> kcfg.vars]     \* pinned (kcfg.i > 0) or read from the file of generated cases
 Sup == Supers[kcfg.e]
 SubT(sg) == Subs[kcfg.e][sg]
 
@@ -122,13 +122,18 @@ Start(c) ==
   /\ kcfg = c
   /\ kv = <<>>
   /\ kdem = Markers(Exec(Fed(Supers[c.e], IF c.u = 0 THEN Catalog[c.e].broken ELSE Catalog[c.e].universes[c.u], <<>>),
-                        Catalog[c.e].ops[c.i].doc, Catalog[c.e].ops[c.i].vars).data)
+                        c.doc, c.vars).data)
   /\ kat = {<<"Q", sg, "Q", <<>>>> : sg \in {j \in DOMAIN Catalog[c.e].sgs : HasName(Catalog[c.e].sgs[j].types, "Query")}}
 FedInit ==
   \E e \in DOMAIN Catalog : \E u \in DOMAIN Catalog[e].universes : \E i \in DOMAIN Catalog[e].ops :
-     Start([e |-> e, u |-> u, i |-> i])
+     Start([e |-> e, u |-> u, i |-> i, doc |-> Catalog[e].ops[i].doc, vars |-> Catalog[e].ops[i].vars])
 \* negative control: a universe whose keys are NOT unique (two users share an id)
-NegInit == \E i \in DOMAIN Catalog[1].ops : Start([e |-> 1, u |-> 0, i |-> i])
+NegInit == \E i \in DOMAIN Catalog[1].ops : Start([e |-> 1, u |-> 0, i |-> i, doc |-> Catalog[1].ops[i].doc, vars |-> Catalog[1].ops[i].vars])
+\* the same model on operations produced by Gen_C01 (NDJSON lines [e, doc, vars], file name in C01_OPS)
+GenOps == ndJsonDeserialize(IOEnv.C01_OPS)
+FileInit ==
+  \E n \in DOMAIN GenOps : \E u \in DOMAIN Catalog[GenOps[n].e].universes :
+     Start([e |-> GenOps[n].e, u |-> u, i |-> 0, doc |-> GenOps[n].doc, vars |-> GenOps[n].vars])
 
 FedNext ==
   \/ /\ Fetchable # {}
@@ -137,6 +142,7 @@ FedNext ==
   \/ Done
 FedSpec == FedInit /\ [][FedNext]_fvars
 NegSpec == NegInit /\ [][FedNext]_fvars
+FileSpec == FileInit /\ [][FedNext]_fvars
 
 FedRefinesMonolith ==
   Terminated => /\ VEq(FedResult.data, MonoResult.data)
